@@ -33,6 +33,19 @@ def dump(n):
     return "?%r" % (n,)
 
 
+def fixed_names(n, out):
+    if isinstance(n, R.RRELNavigation) and n.fixed_name is not None:
+        out.append(canon(n.fixed_name))
+    if isinstance(n, R.RRELExpression):
+        fixed_names(n.seq, out)
+    elif isinstance(n, R.RRELBase):
+        for c in n.__dict__.values():
+            for e in (c if isinstance(c, list) else [c]):
+                if isinstance(e, R.RRELBase):
+                    fixed_names(e, out)
+    return out
+
+
 def main():
     payload = json.load(sys.stdin)
     out = []
@@ -46,7 +59,8 @@ def main():
                 reprinted = str(t2)
             except Exception as e:  # noqa
                 re_dump, reprinted = "ERR:" + type(e).__name__, None
-            out.append({"ok": True, "dump": dump(t), "printed": printed, "redump": re_dump, "reprinted": reprinted})
+            out.append({"ok": True, "dump": dump(t), "printed": printed, "redump": re_dump, "reprinted": reprinted,
+                        "fixed": fixed_names(t, [])})
         except Exception as e:  # noqa
             out.append({"ok": False, "err": type(e).__name__})
     json.dump(out, sys.stdout)
